@@ -143,7 +143,7 @@ theorem sim_write {cfg : Cfg} {W : World} {st : St} {s : SSt} (hc : cfg.Sound) (
 
 theorem assign_step {cfg : Cfg} {W : World} {st : St} {s : SSt} (hc : cfg.Sound) (hS : Sim cfg W st s)
     (o : Nat) (a : Str) (v : PVal) :
-    Sim cfg W (step cfg W st (.assign o a v)).1 (next (sdeclOf W) s (.assign o a v)) ∧
+    Sim cfg W (step cfg W st (.assign o a v)).1 (next (sdeclOf W) s (.assign o a v) (step cfg W st (.assign o a v)).2) ∧
     AssignAllowed (sdeclOf W) s o a v (step cfg W st (.assign o a v)).2 := by
   unfold AssignAllowed
   simp only [next, sdecl_byAttr, step]
@@ -223,7 +223,7 @@ theorem assign_signal_count (cfg : Cfg) (W : World) (st : St) (o : Nat) (a : Str
 theorem opSet_step {cfg : Cfg} {W : World} {st : St} {s : SSt} (hW : W.Good) (hA : AttrConsistent W)
     (hM : Modelled W) (hc : cfg.Sound) (hS : Sim cfg W st s) {o : Nat} (ho : o ∈ st.attached) {i : Str} (p : Str)
     (hi : i ≠ []) {v : PVal} (hw : wireOk v = true) :
-    Sim cfg W (opSet cfg W st o i p v).1 (next (sdeclOf W) s (.set o i p v)) ∧
+    Sim cfg W (opSet cfg W st o i p v).1 (next (sdeclOf W) s (.set o i p v) (opSet cfg W st o i p v).2) ∧
     SetAllowed (sdeclOf W) o i p v (opSet cfg W st o i p v).2 ∧
     (IsErr (opSet cfg W st o i p v).2 → (opSet cfg W st o i p v).1 = st) := by
   unfold SetAllowed
@@ -308,8 +308,8 @@ theorem step_fst_getAll (cfg : Cfg) (W : World) (st : St) (o : Nat) (i : Str) :
     (step cfg W st (.getAll o i)).1 = st := by
   simp only [step]; split <;> rfl
 
-theorem next_set_unattached (d : SDecl) (s : SSt) {o : Nat} (i p : Str) (v : PVal)
-    (h : s.attached o = false) : next d s (.set o i p v) = s := by
+theorem next_set_unattached (d : SDecl) (s : SSt) {o : Nat} (i p : Str) (v : PVal) (outs : List Out)
+    (h : s.attached o = false) : next d s (.set o i p v) outs = s := by
   simp only [next]
   split
   · rw [if_neg]; simp [h]
@@ -317,12 +317,19 @@ theorem next_set_unattached (d : SDecl) (s : SSt) {o : Nat} (i p : Str) (v : PVa
 
 theorem step_sim {cfg : Cfg} {W : World} {st : St} {s : SSt} (hW : W.Good) (hA : AttrConsistent W)
     (hM : Modelled W) (hc : cfg.Sound) (hS : Sim cfg W st s) (op : Op) (hop : GoodOp op) :
-    Sim cfg W (step cfg W st op).1 (next (sdeclOf W) s op) := by
+    Sim cfg W (step cfg W st op).1 (next (sdeclOf W) s op (step cfg W st op).2) := by
   cases op with
   | «export» o =>
+    simp only [step, next]
+    by_cases hx : exportOk cfg W st o = true
+    case neg =>
+      simp only [hx]
+      have : ¬ ([Out.raised] = [Out.done]) := by simp
+      simpa [this] using hS
+    simp only [hx, if_true]
     refine ⟨?_, hS.val⟩
     intro o'
-    simp only [step, next, Bool.or_eq_true, decide_eq_true_eq]
+    simp only [Bool.or_eq_true, decide_eq_true_eq]
     by_cases h : o ∈ st.attached
     · rw [if_pos h]
       constructor
@@ -358,12 +365,12 @@ theorem step_sim {cfg : Cfg} {W : World} {st : St} {s : SSt} (hW : W.Good) (hA :
 theorem runFrom_sim {cfg : Cfg} {W : World} (hW : W.Good) (hA : AttrConsistent W) (hM : Modelled W)
     (hc : cfg.Sound)
     (h : List Op) : ∀ {st : St} {s : SSt}, Sim cfg W st s → GoodHist h →
-      Sim cfg W (Props.runFrom cfg W st h) (PropsSpec.runFrom (sdeclOf W) s h) := by
+      Sim cfg W (Props.runFrom cfg W st h) (PropsSpec.runFrom (sdeclOf W) s (annotate cfg W st h)) := by
   induction h with
   | nil => intro st s hS _; exact hS
   | cons op t ih =>
     intro st s hS hg
-    simp only [Props.runFrom, PropsSpec.runFrom]
+    simp only [Props.runFrom, PropsSpec.runFrom, annotate]
     exact ih (step_sim hW hA hM hc hS op (hg op List.mem_cons_self))
       (fun x hx => hg x (List.mem_cons_of_mem _ hx))
 
@@ -375,7 +382,7 @@ theorem sim_init (cfg : Cfg) (W : World) : Sim cfg W St.init SSt.init := by
 theorem run_sim {cfg : Cfg} {W : World} (hW : W.Good) (hA : AttrConsistent W) (hM : Modelled W)
     (hc : cfg.Sound)
     {h : List Op} (hg : GoodHist h) :
-    Sim cfg W (Props.run cfg W h) (PropsSpec.run (sdeclOf W) h) :=
+    Sim cfg W (Props.run cfg W h) (specRun cfg W h) :=
   runFrom_sim hW hA hM hc h (sim_init cfg W) hg
 
 end Txdbus.Obj.Props
